@@ -396,6 +396,19 @@ def audit_property(pid, timeout=600):
     return res
 
 
+def coqchk_property(pid, timeout=1500):
+    """independent re-check of Properties/<pid>.vo and everything it depends on; returns (ok, axioms, tail)"""
+    rc, out = sh(['bash', '-c', 'ulimit -s unlimited 2>/dev/null; exec timeout %d coqchk -silent -o -Q %s PB PB.Properties.%s'
+                  % (timeout, COQ, pid)], cwd=COQ, timeout=timeout + 60)
+    ok = (rc == 0 and 'relying on type-in-type: <none>' in out and 'unsafe (co)fixpoints: <none>' in out
+          and 'positivity is assumed: <none>' in out)
+    ax = []
+    if '* Axioms:' in out:
+        blk = out.split('* Axioms:')[1].split('* Constants/Inductives')[0]
+        ax = [l.strip() for l in blk.splitlines() if l.strip() and l.strip() != '<none>']
+    return ok, ax, out[-600:]
+
+
 VERDICT_RE = re.compile(r'=\s*V\s+(\(?-?\d+\)?)\s+(true|false)\s+(\S+)\s+(\(?-?\d+\)?)\s*:\s*verdict', re.S)
 
 
@@ -522,6 +535,17 @@ def run_property(mod, tier, seed):
     ok, out = build_for(['Properties/%s.v' % pid] + ['%s.v' % r.replace('.', '/') for r in mod.REQUIRES])
     audit = audit_property(pid) if ok else {'theorems': theorem_names(pid), 'discharged': [],
                                             'broken': [('build', out[-800:])], 'axioms': {}}
+    chk = None
+    if tier == 'thorough' and ok and not audit['broken']:
+        # independent checker over the property file and all it depends on (1-2 min)
+        c_ok, c_ax, c_tail = coqchk_property(pid)
+        chk = {'ok': c_ok, 'axioms': c_ax}
+        bad_ax = [a for a in c_ax if a.replace('Coq.Logic.', '').replace('Coq.Reals.', '') not in ALLOWED_AXIOMS
+                  and a.split('.', 2)[-1] not in ALLOWED_AXIOMS and not any(a.endswith(x) for x in ALLOWED_AXIOMS)]
+        if not c_ok:
+            audit['broken'].append(('coqchk', 'coqchk failed: ' + c_tail))
+        elif bad_ax:
+            audit['broken'].append(('coqchk', 'coqchk reports axioms outside the allow-list: %s' % bad_ax))
     # 2. correspondence + predicates on the implementation
     import_repo()
     rng = np.random.default_rng(seed)
@@ -610,6 +634,7 @@ def run_property(mod, tier, seed):
             'trusted_base': TRUSTED_BASE,
             'theorems': audit['theorems'],
             'axioms_per_theorem': audit['axioms'],
+            'coqchk': chk if chk is not None else 'not run in the quick tier (thorough runs coqchk -o over the property file)',
             'evaluations': len(cases),
             'model_vs_impl_compared': len(exprs),
             'model_vs_impl_agree': len([i for i, _ in exprs if i in results and results[i][0]]),
